@@ -244,6 +244,8 @@ def check(scenario, w, st, res):
                             for lg in scenario['logins']) +
                       (scenario['auth'],)]
     ob()
+    if sim.end_state == 'inconclusive':
+        return
     if sim.end_state != 'done':
         waits = [a.waiting for a in w.server.apps]
         if 'plugins' in waits:
